@@ -316,6 +316,9 @@ func preludeD(w *lineWriter, m Mix) {
 		w.add(ind + "Mp map[string]int")
 		w.add(ind + "Next *T")
 		w.add(ind + "Kids []T")
+		w.add(ind + "Ls Labels // a field whose type is a DEFINED slice type")
+		w.add(ind + "Pm Props")
+		w.add(ind + "Ar Triple")
 	}
 	if m.Extra == 2 {
 		w.add("type (")
@@ -448,6 +451,13 @@ func preludeD(w *lineWriter, m Mix) {
 	w.add("")
 	w.add("type WOut struct{ *WMid }")
 	w.add("")
+	w.add("// Labels, Props and Triple are defined collection types (fields of T are declared with them).")
+	w.add("type Labels []int")
+	w.add("")
+	w.add("type Props map[string]int")
+	w.add("")
+	w.add("type Triple [3]int")
+	w.add("")
 	w.add("// O is a plain struct holding T.")
 	w.add("type O struct {")
 	w.add("\tIn T")
@@ -468,6 +478,9 @@ func Render(s *Spec) *Rendered {
 	pkgName := "d"
 	if s.InU {
 		pkgPath, pkgName = PathU, "u"
+		if s.Mix.Ctor == 2 || s.Mix.PreludeLast {
+			pkgName = "d" // the using package is CALLED like the declaring one (its path stays ex.com/m/u)
+		}
 		r.q = "d."
 		if s.Spell == SpRenamedImp {
 			r.q = "dd."
